@@ -24,13 +24,20 @@ CLAIM = dict(
     "volume, both branches of Geometry.integrate, area resampling of array volumes): integrate on a fresh object = "
     "sum of data x effective voxel volume per trailing index; the effective volumes at any resolution add up to the "
     "geometry's total volume; linearity; the same piecewise-constant field integrates to the same value at integer-factor "
-    "coarser and finer resolutions (scalar volumes in any dimension, array volumes in 2-D); normalize => equal integrals "
+    "coarser and finer resolutions (scalar AND array volumes in any dimension: spec_array_coarsen_nd / spec_array_refine_nd); the weighted, "
+    "extruded, porous and extruded-porous kinds have effective volume = voxel volume x weight (x porosity x depth) and their constructors "
+    "yield well-formed fresh objects; normalize => equal integrals "
     "(guard: integral != 0); and history independence for ALL histories by an invariant on reachable states "
     "(with the negation for the pre-fix scalar branch, witness [native, coarse, native]). The model is tied to the real "
     "classes by per-call return values over all histories up to length 3 (quick) / 4-5 (thorough) on all geometry, weight and data kinds.",
     note="OpenCV's INTER_AREA kernel is a contract (box mean when shrinking, replication for integer enlargement), tied by "
     "exact comparison for power-of-two factors and 1e-6 relative otherwise (OpenCV computes area weights in float32); "
     "numpy float64 arithmetic is exact on the dyadic stream.",
+    limits="normalize: the model + theorem are tied through the oracle only (the driver's `norm` request is not sent; darsia.weight's "
+    "ndarray-ratio branch is not modelled); resolution independence of ARRAY volumes has theorems for pure coarsening and pure refinement in any "
+    "dimension, the mixed case (one axis coarsened, the other refined) is covered by tie + oracle only; non-integer factors (effVol_total, "
+    "integrate_fresh_eq_spec hold for them in the model) are not tied; data with another number of axes than the geometry are outside the model "
+    "(Err.other): the code broadcasts there.",
     technique="Lean 4 proof (induction over histories with a cache invariant, telescoping/box-sum algebra) + differential correspondence + property oracle",
 )
 
@@ -56,13 +63,38 @@ def make_weight(rng, kind, shape):
     return {"kind": kind, "shape": list(shape), "values": vals}
 
 
+_WOBJ = {}  # id(weight spec) -> (spec, object): the caller's weight array / Image is built ONCE and handed to every constructor
+
+
 def weight_obj(d, w, dims):
+    """The caller-owned weight object of a specification. All geometries of one specification (the object with a history and
+    every 'fresh' object) are built from the SAME array / Image, as a caller would do."""
     if w["kind"] == "f":
         return float(w["value"])
+    hit = _WOBJ.get(id(w))
+    if hit is not None and hit[0] is w:
+        return hit[1]
     arr = np.array(w["values"], dtype=float).reshape(w["shape"])
-    if w["kind"] == "i":
-        return d.Image(arr, space_dim=len(w["shape"]), dimensions=list(dims))
-    return arr
+    obj = d.Image(arr, space_dim=len(w["shape"]), dimensions=list(dims)) if w["kind"] == "i" else arr
+    _WOBJ[id(w)] = (w, obj)
+    return obj
+
+
+def weights_intact(ctx, g, where):
+    """the caller's weight arrays must still hold the values they were created with"""
+    for w in g.get("w", []):
+        hit = _WOBJ.get(id(w))
+        if w["kind"] == "f" or hit is None or hit[0] is not w:
+            continue
+        arr = hit[1].img if w["kind"] == "i" else hit[1]
+        want = np.array(w["values"], dtype=float).reshape(w["shape"])
+        if not isinstance(arr, np.ndarray) or arr.shape != want.shape or not np.array_equal(arr, want):
+            ctx.fail(f"C03:{g['kind']}-geometry:weight-argument-changed({'Image' if w['kind'] == 'i' else 'array'})",
+                     f"the weight array handed to the constructor no longer holds its values after {where} "
+                     f"(first entries {np.asarray(arr, dtype=float).ravel()[:4].tolist()} instead of {want.ravel()[:4].tolist()})",
+                     {"check": "weights", "geo": g, "history": []})
+            del _WOBJ[id(w)]  # continue with a pristine array
+
 
 
 def build_geo(d, g):
@@ -80,23 +112,51 @@ def build_geo(d, g):
     raise ValueError(k)
 
 
-def make_data(rng, dim, shape, trailing, as_image, field=None, factors=None, series=None):
+LAYOUTS = ["C", "F", "T", "S"]  # C-contiguous, Fortran-ordered, transposed view of a reversed-axes array, strided view
+DTYPES = ["float64", "float64", "float32", "uint8", "uint16", "int64", "bool"]
+
+
+def make_data(rng, dim, shape, trailing, as_image, field=None, factors=None, series=None, layout="C", dtype="float64"):
     """field: values on a coarse grid `shape // factors` replicated to `shape` (piecewise constant)."""
     full = tuple(shape) + tuple(trailing)
+    n = int(np.prod(full))
     if field is None:
-        arr = np.array([dy(rng) for _ in range(int(np.prod(full)))], dtype=float).reshape(full)
+        if dtype in ("uint8", "uint16"):
+            arr = np.array([rng.randint(0, 12) for _ in range(n)], dtype=float).reshape(full)
+        elif dtype == "int64":
+            arr = np.array([rng.randint(-8, 8) for _ in range(n)], dtype=float).reshape(full)
+        elif dtype == "bool":
+            arr = np.array([rng.randint(0, 1) for _ in range(n)], dtype=float).reshape(full)
+        else:
+            arr = np.array([dy(rng) for _ in range(n)], dtype=float).reshape(full)
     else:
+        dtype = "float64"
         arr = np.array(field["values"], dtype=float).reshape(tuple(field["shape"]) + tuple(trailing))
         for ax, k in enumerate(factors):
             arr = np.repeat(arr, k, axis=ax)
     if isinstance(as_image, tuple):
         as_image, series = as_image
     return {"shape": list(shape), "trailing": list(trailing), "values": arr.ravel().tolist(), "image": bool(as_image),
-            "series": bool(series) if series is not None else len(trailing) == 2}
+            "series": bool(series) if series is not None else len(trailing) == 2, "layout": layout, "dtype": dtype}
+
+
+def data_array(dat):
+    """the data array in the dtype and memory layout of the description (same values in every layout)"""
+    arr = np.array(dat["values"], dtype=float).reshape(tuple(dat["shape"]) + tuple(dat["trailing"])).astype(dat.get("dtype", "float64"))
+    layout = dat.get("layout", "C")
+    if layout == "F":
+        arr = np.asfortranarray(arr)
+    elif layout == "T":
+        arr = np.ascontiguousarray(arr.transpose()).transpose()
+    elif layout == "S":
+        big = np.zeros((2 * arr.shape[0] + 1,) + arr.shape[1:], dtype=arr.dtype)
+        big[1::2] = arr
+        arr = big[1::2]
+    return arr
 
 
 def data_obj(d, dat, dim, dims):
-    arr = np.array(dat["values"], dtype=float).reshape(tuple(dat["shape"]) + tuple(dat["trailing"]))
+    arr = data_array(dat)
     if not dat["image"]:
         return arr
     tr = dat["trailing"]
@@ -272,17 +332,28 @@ def run_history(d, g, hist):
         return [repr(obj)] * len(hist), [repr(obj)] * len(hist)
     seq, fresh = [], []
     for dat in hist:
-        seq.append(show_result(call(obj.integrate, data_obj(d, dat, g["dim"], dims))))
+        x = data_obj(d, dat, g["dim"], dims)  # the same caller-owned object goes to both calls
+        seq.append(show_result(call(obj.integrate, x)))
         f = build_geo(d, g)
-        fresh.append(show_result(call(f.integrate, data_obj(d, dat, g["dim"], dims))))
+        fresh.append(show_result(call(f.integrate, x)))
+        xa = x if isinstance(x, np.ndarray) else x.img
+        if isinstance(f, Raised):
+            fresh[-1] = repr(f)
+        if not (isinstance(xa, np.ndarray) and xa.dtype == np.dtype(dat.get("dtype", "float64")) and np.array_equal(xa, data_array(dat))):
+            fresh[-1] = "!data-argument-changed"
     return seq, fresh
 
 
 def check_history(ctx, d, g, hist, labels, exact, where):
     """property oracle for one history; returns the per-call strings of the implementation"""
     seq, fresh = run_history(d, g, hist)
+    weights_intact(ctx, g, f"history {labels}")
     for n, (a, b, dat) in enumerate(zip(seq, fresh, hist)):
         exp_err = expected_error(g, dat)
+        if b == "!data-argument-changed":
+            ctx.fail("C03:integrate:data-argument-changed", f"the data handed to integrate ({dat.get('dtype')}, layout {dat.get('layout')}) differ after the call",
+                     {"check": "spec", "geo": g, "history": [dat], "labels": labels[n]})
+            continue
         if a != b:
             ctx.fail(f"C03:integrate:history-dependent({'array' if has_array(g) else 'scalar'}-volume)",
                      f"call {n} of history {labels} on one {g['kind']} geometry returned {a}, a fresh object returns {b}",
@@ -296,6 +367,8 @@ def check_history(ctx, d, g, hist, labels, exact, where):
         want = fmts(integral_exact(g, dat))
         if not close(b, want, exact):
             kind = "vector-or-series-data" if dat["trailing"] else "scalar-data"
+            if dat.get("dtype", "float64") not in ("float64", "float32"):
+                kind += "," + ("integer" if dat["dtype"] != "bool" else "bool") + ("-Image" if dat["image"] else "-array")
             mixed = labels[n] == "m"
             ctx.fail(f"C03:integrate!=weighted-voxel-sum({'array' if has_array(g) else 'scalar'}-volume,{kind},{'coarsened+refined' if mixed else 'native' if labels[n] == 'n' else 'foreign'}-resolution)",
                      f"integrate on a fresh {g['kind']} geometry returned {b}; sum of data x effective voxel volume is {want} ({where})",
@@ -336,7 +409,8 @@ def run(ctx):
                     trailing, as_image = TRAILINGS[(hi + gi) % len(TRAILINGS)]
                     if len(labels) >= 4 and int(np.prod(trailing or (1,))) > 2:
                         trailing = ()
-                    hist = [make_data(rng, dim, res[l], trailing, as_image) for l in labels]
+                    hist = [make_data(rng, dim, res[l], trailing, as_image, layout=LAYOUTS[(hi + gi + k) % 4], dtype=DTYPES[(hi // 3 + gi + k) % len(DTYPES)])
+                            for k, l in enumerate(labels)]
                     seq = check_history(ctx, d, g, hist, "".join(labels), True, "dyadic stream")
                     n_hist += 1
                     ctx.count(("hist", dim, nv, g["kind"], gi, labels), nontrivial=len(labels) > 1)
@@ -354,7 +428,7 @@ def run(ctx):
         for gi, g in enumerate(geometries(ctx, 2, nv, dyadic=False)):
             for hi, labels in enumerate(histories(sorted(res), 2)):
                 trailing, as_image = TRAILINGS[(hi + gi) % len(TRAILINGS)]
-                hist = [make_data(rng, 2, res[l], trailing, as_image) for l in labels]
+                hist = [make_data(rng, 2, res[l], trailing, as_image, layout=LAYOUTS[(hi + gi + k) % 4]) for k, l in enumerate(labels)]
                 seq = check_history(ctx, d, g, hist, "".join(labels), False, "general stream, rel 1e-6")
                 ctx.count(("hist3", nv, gi, labels))
                 if hi % 4 == 0:
@@ -398,6 +472,7 @@ def oracle_fields(ctx, d):
             else:
                 labels = sorted(res)
             for rep in range(ctx.pick(2, 6)):
+                weights_intact(ctx, g, "constructing geometries and integrating")
                 trailing, as_image = TRAILINGS[rng.randrange(len(TRAILINGS))]
                 # --- the same piecewise-constant field at every resolution of the alphabet
                 coarse = [min(res[l][a] for l in labels) for a in range(dim)]
@@ -407,7 +482,7 @@ def oracle_fields(ctx, d):
                 for l in labels:
                     if any(res[l][a] % coarse[a] for a in range(dim)):
                         continue
-                    dat = make_data(rng, dim, res[l], trailing, as_image, field, [res[l][a] // coarse[a] for a in range(dim)])
+                    dat = make_data(rng, dim, res[l], trailing, as_image, field, [res[l][a] // coarse[a] for a in range(dim)], layout=rng.choice(LAYOUTS))
                     obj = build_geo(d, g)
                     vals[l] = (show_result(call(obj.integrate, data_obj(d, dat, dim, dims))), dat)
                     nres += 1
@@ -439,9 +514,9 @@ def oracle_fields(ctx, d):
                                  {"check": "linear", "geo": g, "history": [d1, d2], "a": a, "b": b, "labels": l})
                 # --- normalize => equal integrals (Images only; after a foreign-resolution call on the same object)
                 if dim in (2, 3):
-                    img = make_data(rng, dim, res["n"], trailing, True)
+                    img = make_data(rng, dim, res["n"], trailing, True, layout=LAYOUTS[(rep + nnorm) % 4])
                     img["values"] = [abs(v) + 0.25 for v in img["values"]]
-                    refd = make_data(rng, dim, res["n"], trailing, True)
+                    refd = make_data(rng, dim, res["n"], trailing, True, layout=rng.choice(LAYOUTS))
                     refd["values"] = [abs(v) + 0.5 for v in refd["values"]]
                     obj = build_geo(d, g)
                     if not (has_array(g) and dim != 2):
